@@ -49,7 +49,17 @@ Proof. intros A. exact (@pad_axes_order_listing A). Qed.
 Theorem C12_equiv_symmetric : forall a b, nats_eqb a b = nats_eqb b a.
 Proof. exact nats_eqb_sym. Qed.
 
+(* Accept/reject: listing the same faces of a face-connection table in another order
+   never turns a rejected table into an accepted one or vice versa -- malformed tables
+   included (by C17_iff acceptance is an order-free predicate of the table). *)
+Theorem C12_accept_order : forall fd tbl tbl' dsdims faces axes,
+  Permutation tbl tbl' -> NoDup (map fst tbl) ->
+  (assign {| fc_dict := [(fd, tbl)]; fc_dsdims := dsdims; fc_faces := faces; fc_axes := axes |} = Ok tt <->
+   assign {| fc_dict := [(fd, tbl')]; fc_dsdims := dsdims; fc_faces := faces; fc_axes := axes |} = Ok tt).
+Proof. exact accept_order. Qed.
+
 Print Assumptions C12_no_set_iteration.
+Print Assumptions C12_accept_order.
 Print Assumptions C12_lookup_order.
 Print Assumptions C12_table_order.
 Print Assumptions C12_axis_order.
